@@ -272,10 +272,10 @@ def stream_pause(window: int, n1: int, n2: int, rd: int) -> bool:
 OBLIGATIONS = [
     Ob('send_window', send_window,
        sym=dict(window=R(0, 5), pktsize=R(1, 4), n1=R(0, 3), n2=R(0, 3), adj=R(0, 4), stderr2=B, fin=R(0, 2)),
-       shards=dict(n1=[0, 2, 3], n2=[0, 2], fin=[0, 1, 2]),
+       shards=dict(n1=[0, 2, 3, 5], n2=[0, 2], fin=[0, 1, 2]),
        thorough_shards=dict(n1=[0, 1, 2, 3, 4, 5], n2=[0, 1, 2, 3, 4, 5], fin=[0, 1, 2]),
        thorough_sym=dict(window=R(0, 9), pktsize=R(1, 6), adj=R(0, 6)),
-       timeout=90, thorough_timeout=600,
+       timeout=240, thorough_timeout=600,
        functions=[CH.SSHChannel.write, CH.SSHChannel._flush_send_buf,
                   CH.SSHChannel._process_window_adjust, CH.SSHChannel.send_packet, CH.SSHChannel.write_eof, CH.SSHChannel.close, CH.SSHChannel._close_send,
                   CH.SSHChannel._pause_resume_writing],
